@@ -70,8 +70,10 @@ class Impl:
             if c[0] == "lab":
                 cmds.append(self.ir.BranchLabel(c[1]))
             else:
+                from netqasm.util.log import HostLine
                 cmds.append(self.ir.ICmd(instruction=self.ir.GenericInstr[c[1].upper()], args=list(c[2]),
-                                         operands=[self.mk_opnd(o) for o in c[3]]))
+                                         operands=[self.mk_opnd(o) for o in c[3]],
+                                         lineno=HostLine("app_alice.py", len(cmds)) if len(cmds) % 3 == 1 else None))
         return self.ir.ProtoSubroutine(commands=cmds, app_id=0)
 
     def view_instr(self, instr):
@@ -144,22 +146,34 @@ class Impl:
             return 2
         return 3
 
-    def assemble_ir(self, fname, prog):
+    def mk_reserved(self, rsv):
+        """reserved_registers as the builder passes them (Register objects); None when nothing is reserved"""
+        if not rsv:
+            return None
+        return [self.operand.Register(self.encoding.RegisterName(b), i) for b, i in rsv]
+
+    def assemble_ir(self, fname, prog, rsv=None):
         """-> (outcome, subroutine or None); outcome = ['instrs', [...]] | ['failed', code]"""
         try:
-            sub = self.text.assemble_subroutine(self.mk_proto(prog), flavour=self.flav[fname])
+            kw = {} if not rsv else dict(reserved_registers=self.mk_reserved(rsv))
+            sub = self.text.assemble_subroutine(self.mk_proto(prog), flavour=self.flav[fname], **kw)
             views = [self.view_instr(i) for i in sub.instructions]
         except Exception as e:  # any refusal
             return ["failed", self.classify(e)], None
         return ["instrs", views], sub
 
-    def assemble_text(self, fname, text):
+    def assemble_text(self, fname, text, rsv=None):
         try:
             self.text.parse_text_protosubroutine(text)
         except Exception:
             return ["failed", 0], None
         try:
-            sub = self.text.parse_text_subroutine(text, flavour=self.flav[fname])
+            if rsv:
+                # the text caller with reserved registers: front end, then assemble_subroutine
+                sub = self.text.assemble_subroutine(self.text.parse_text_protosubroutine(text), flavour=self.flav[fname],
+                                                    reserved_registers=self.mk_reserved(rsv))
+            else:
+                sub = self.text.parse_text_subroutine(text, flavour=self.flav[fname])
             views = [self.view_instr(i) for i in sub.instructions]
         except Exception as e:
             return ["failed", self.classify(e)], None
@@ -483,10 +497,15 @@ def coq_obs(o):
     return f"(Some (mkObs {z(o['kind'])} {z(o['line'])} {regs} {arr} {shreg} {sharr} {alias}))"
 
 
+def coq_regs(rsv):
+    return lst(f"({z(b)}, {z(i)})" for b, i in (rsv or []))
+
+
 def coq_acase(c):
     lines = "None" if c["lines"] is None else f"(Some {lst(cstr(l) for l in c['lines'])})"
     prog = lst(coq_cmd(x) for x in (c["prog"] if c["lines"] is None else []))
-    return f"mkAC {lines} {prog} {coq_outcome(c['out'])} {c['fuel']}%nat {coq_obs(c['obs'])}"
+    return (f"mkAC {lines} {prog} {coq_outcome(c['out'])} {c['fuel']}%nat {coq_obs(c['obs'])} "
+            f"{coq_regs(c.get('rsv'))}")
 
 
 def coq_oprog(p):
@@ -578,8 +597,8 @@ def write_scase_file(path, fname, cases):
         f.write(CASE_HEADER)
         items = []
         for c in cases:
-            steps = lst((f"mkSS {lst(coq_cmd(x) for x in st['prog'])} {coq_outcome(st['out'])} {coq_obs(st['obs'])}"
-                         for st in c["steps"]), sep=";\n    ")
+            steps = lst((f"mkSS {lst(coq_cmd(x) for x in st['prog'])} {coq_outcome(st['out'])} {coq_obs(st['obs'])} "
+                         f"{coq_regs(st.get('rsv'))}" for st in c["steps"]), sep=";\n    ")
             items.append(steps)
         f.write("Definition cases : list (list sstep) :=\n [" + ";\n  ".join(items) + "].\n")
         f.write(f"Eval vm_compute in (codes (check_scase gen_params gen_{fname} {cases[0]['fuel'] if cases else 0}%nat) cases).\n")
